@@ -588,8 +588,80 @@ func condTestsLen(cond ssa.Value, p ssa.Value) bool {
 				return true
 			}
 		}
+		if closureComparesParam(sc, q) {
+			return true
+		}
 	}
 	return false
+}
+
+// closureComparesParam: the checker's parameter q is captured by closures defined in it (a table of
+// check functions) and one of them compares it: `ok: func() bool { return available >= w*h*c }`.
+func closureComparesParam(sc *ssa.Function, q *ssa.Parameter) bool {
+	cells := map[ssa.Value]bool{}
+	for _, b := range sc.Blocks {
+		for _, ins := range b.Instrs {
+			if st, ok := ins.(*ssa.Store); ok && st.Val == ssa.Value(q) {
+				if al, ok := st.Addr.(*ssa.Alloc); ok {
+					cells[al] = true
+				}
+			}
+		}
+	}
+	if len(cells) == 0 {
+		return false
+	}
+	var visit func(fn *ssa.Function, depth int) bool
+	visit = func(fn *ssa.Function, depth int) bool {
+		if depth > 3 {
+			return false
+		}
+		for _, an := range fn.AnonFuncs {
+			// which free variables of an hold a cell of q
+			fvs := map[ssa.Value]bool{}
+			for _, b := range fn.Blocks {
+				for _, ins := range b.Instrs {
+					if mc, ok := ins.(*ssa.MakeClosure); ok && mc.Fn == ssa.Value(an) {
+						for j, bd := range mc.Bindings {
+							if cells[bd] && j < len(an.FreeVars) {
+								fvs[an.FreeVars[j]] = true
+							}
+						}
+					}
+				}
+			}
+			if len(fvs) > 0 {
+				for _, b := range an.Blocks {
+					for _, ins := range b.Instrs {
+						bo, ok := ins.(*ssa.BinOp)
+						if !ok {
+							continue
+						}
+						switch bo.Op {
+						case token.LSS, token.LEQ, token.GTR, token.GEQ:
+						default:
+							continue
+						}
+						for _, side := range []ssa.Value{bo.X, bo.Y} {
+							for v := range backwardSlice(side, 50) {
+								if ld, ok := v.(*ssa.UnOp); ok && ld.Op == token.MUL && fvs[ld.X] {
+									return true
+								}
+							}
+						}
+					}
+				}
+				for fv := range fvs {
+					cells[fv] = true // nested closures capture the same cell through this free variable
+				}
+			}
+			if visit(an, depth+1) {
+				return true
+			}
+		}
+		return false
+	}
+	return visit(sc, 0)
 }
 
 // structCarries: a is (a pointer to / the value of) a local struct one of whose fields was assigned p.
